@@ -76,9 +76,9 @@ class C11(Base):
         return "args " + ";".join(ops)
 
     def gen_many(self, rng):
-        """MANY distinct keys (9..130: several growth steps of the vector, binary search over more than a handful of
+        """MANY distinct keys (9..1025: several growth steps of the vector, binary search over more than a handful of
         entries), set in random / ascending / descending order, some overwritten, then all looked up"""
-        n = rng.choice([9, 10, 16, 17, 31, 32, 33, 64, 65, 130])
+        n = rng.choice([9, 10, 16, 17, 31, 32, 33, 64, 65, 130, 255, 256, 257, 300, 513, 1025])
         if rng.random() < 0.15:
             # LONG keys (63, 64, 65, 127, 128, 300 bytes; ASCII and multi-byte): a per-length summary must not lose them
             keys = [c * (ln // len(c.encode("utf-8"))) + "%d" % i for i, (c, ln) in enumerate(
